@@ -6,6 +6,7 @@ import (
 	"fmt"
 	"strconv"
 	"strings"
+	"sync"
 
 	"github.com/dgrr/http2"
 	"github.com/valyala/fasthttp"
@@ -122,12 +123,16 @@ type CliWorld struct {
 	closeOffered bool
 	closed       bool
 
-	online        func(w *CliWorld) *Violation
-	Probes        map[string]int
-	Harness       string
-	ExtraViol     []*Violation
-	settingsSent  int
-	winUpdates    []*Frame
+	online       func(w *CliWorld) *Violation
+	Probes       map[string]int
+	Harness      string
+	ExtraViol    []*Violation
+	settingsSent int
+	winUpdates   []*Frame
+	// application-level causality, visible to the race detector: a real application calls Write/Close/Cancel
+	// after Handshake has returned, and Cancel(ctx) after the Write(ctx) it refers to
+	hsMu          sync.Mutex
+	ctxMu         []sync.Mutex
 	maxOpenLimit  []int64
 	GoAwaySent    []GoAwaySent
 	FrameSizeViol *Violation
@@ -161,10 +166,13 @@ func NewCliWorld(sim *Sim, plan *CliPlan) *CliWorld {
 	}
 	w.h2 = http2.NewConn(w.conn, http2.ConnOpts{PingInterval: plan.PingInterval, DisablePingChecking: plan.DisablePingChecking})
 	// the server's first SETTINGS (+ optional connection window boost): sent as soon as the client's preface arrives
+	w.ctxMu = make([]sync.Mutex, len(plan.Reqs))
 	h2 := w.h2
 	hsDone := w.hsDone
 	simrt.Go("handshake", func() {
-		hsDone <- h2.Handshake()
+		err := h2.Handshake()
+		appSync(&w.hsMu)
+		hsDone <- err
 	})
 	return w
 }
@@ -247,11 +255,13 @@ func (w *CliWorld) startCaller(k int) {
 	cev := w.cev
 	h2 := w.h2
 	simrt.Go("caller"+strconv.Itoa(k), func() {
+		appSync(&w.hsMu)
 		req := appBuildRequest(q, k)
 		res := &fasthttp.Response{}
 		ctx := &http2.Ctx{Request: req, Response: res, Err: make(chan error, 1)}
 		cev <- callerEvent{kind: "start", k: k, ctx: ctx}
 		h2.Write(ctx)
+		appSync(&w.ctxMu[k])
 		simrt.UserYield("caller.written")
 		err := <-ctx.Err
 		simrt.UserYield("caller.woke")
@@ -279,7 +289,7 @@ func (w *CliWorld) drainEvents() {
 					if ev.err != nil {
 						es = ev.err.Error()
 					}
-					w.sim.Obs(fmt.Sprintf("caller %d returned %s", ev.k, es))
+					w.sim.Obs("caller " + itoa(ev.k) + " returned " + es)
 					w.sim.Logf("caller %d returned: %s", ev.k, es)
 				}
 			case "cancelled":
@@ -770,19 +780,19 @@ func (w *CliWorld) EnvActions() []Action {
 	w.drainEvents()
 	var acts []Action
 	if n := len(w.s2c.Inflight); n > 0 && !w.s2c.cutDone {
-		acts = append(acts, Action{Name: fmt.Sprintf("deliver s2c all(%d)", n), Run: func() { w.s2c.Deliver(n) }, Env: true, Weight: 20})
+		acts = append(acts, Action{Name: "deliver s2c all(" + itoa(n) + ")", Run: func() { w.s2c.Deliver(n) }, Env: true, Weight: 20})
 		if w.plan.Frag && n > 1 {
 			acts = append(acts, Action{Name: "deliver s2c 1", Run: func() { w.s2c.Deliver(1) }, Env: true, Weight: 6})
 			k := 1 + int(Mix(uint64(w.sim.Steps), uint64(n))%uint64(n-1))
-			acts = append(acts, Action{Name: fmt.Sprintf("deliver s2c %d", k), Run: func() { w.s2c.Deliver(k) }, Env: true, Weight: 10})
+			acts = append(acts, Action{Name: "deliver s2c " + itoa(k), Run: func() { w.s2c.Deliver(k) }, Env: true, Weight: 10})
 		}
 	}
 	if n := len(w.c2s.Inflight); n > 0 && !w.stallC2S {
-		acts = append(acts, Action{Name: fmt.Sprintf("deliver c2s all(%d)", n), Run: func() { w.c2s.Deliver(n); w.srvReceive() }, Env: true, Weight: 20})
+		acts = append(acts, Action{Name: "deliver c2s all(" + itoa(n) + ")", Run: func() { w.c2s.Deliver(n); w.srvReceive() }, Env: true, Weight: 20})
 		if w.plan.DelayC2S && n > 9 && w.preface == 0 {
 			l := 9 + (int(w.c2s.Inflight[0])<<16 | int(w.c2s.Inflight[1])<<8 | int(w.c2s.Inflight[2]))
 			if w.fr.Pending() == 0 && l < n {
-				acts = append(acts, Action{Name: fmt.Sprintf("deliver c2s frame(%d)", l), Run: func() { w.c2s.Deliver(l); w.srvReceive() }, Env: true, Weight: 10})
+				acts = append(acts, Action{Name: "deliver c2s frame(" + itoa(l) + ")", Run: func() { w.c2s.Deliver(l); w.srvReceive() }, Env: true, Weight: 10})
 			}
 		}
 	} else if !w.ClientEOF && w.c2s.EOF && len(w.c2s.Inflight) == 0 && !w.stallC2S {
@@ -799,13 +809,13 @@ func (w *CliWorld) EnvActions() []Action {
 				continue
 			}
 			c := c
-			acts = append(acts, Action{Name: fmt.Sprintf("start caller %d", c.k), Run: func() { c.started = true; w.startCaller(c.k) }, Env: true, Weight: 15})
+			acts = append(acts, Action{Name: "start caller " + itoa(c.k), Run: func() { c.started = true; w.startCaller(c.k) }, Env: true, Weight: 15})
 		}
 	}
 	for _, l := range w.lanes {
 		if w.laneEnabled(l) {
 			l := l
-			acts = append(acts, Action{Name: fmt.Sprintf("srv-send lane%d op%d", l.idx, l.next), Run: func() { w.laneSend(l) }, Env: true, Weight: 10})
+			acts = append(acts, Action{Name: "srv-send lane" + itoa(l.idx) + " op" + itoa(l.next), Run: func() { w.laneSend(l) }, Env: true, Weight: 10})
 		}
 	}
 	if w.phase == 0 {
@@ -813,11 +823,13 @@ func (w *CliWorld) EnvActions() []Action {
 			q := &w.plan.Reqs[c.k]
 			if q.Cancel != "" && c.started && !c.returned && !c.cancelOffered && c.ctx != nil {
 				c := c
-				acts = append(acts, Action{Name: fmt.Sprintf("cancel caller %d", c.k), Env: true, Weight: 3, Run: func() {
+				acts = append(acts, Action{Name: "cancel caller " + itoa(c.k), Env: true, Weight: 3, Run: func() {
 					c.cancelOffered = true
 					w.Probes["cancel"]++
 					h2, ctx, cev := w.h2, c.ctx, w.cev
 					simrt.Go("cancel"+strconv.Itoa(c.k), func() {
+						appSync(&w.hsMu)
+						appSync(&w.ctxMu[c.k])
 						_ = h2.Cancel(ctx)
 						cev <- callerEvent{kind: "cancelled", k: c.k}
 					})
@@ -832,7 +844,7 @@ func (w *CliWorld) EnvActions() []Action {
 				continue
 			}
 			i, f := i, f
-			acts = append(acts, Action{Name: fmt.Sprintf("fault %s@%d", f.Kind, f.At), Run: func() { w.faultsDone[i] = true; w.applyFault(f) }, Env: true, Weight: 8})
+			acts = append(acts, Action{Name: "fault " + f.Kind + "@" + itoa(f.At), Run: func() { w.faultsDone[i] = true; w.applyFault(f) }, Env: true, Weight: 8})
 		}
 	}
 	if w.phase >= 1 && w.plan.Srv.DrainGrants && w.blockOwner == nil && !w.peerGone {
@@ -851,6 +863,7 @@ func (w *CliWorld) closeConn() {
 	w.Probes["close-local"]++
 	h2, cev := w.h2, w.cev
 	simrt.Go("closer", func() {
+		appSync(&w.hsMu)
 		_ = h2.Close()
 		cev <- callerEvent{kind: "closed"}
 	})
@@ -955,3 +968,10 @@ func (w *CliWorld) Summary() string {
 }
 
 var _ = bytes.Equal
+
+// appSync is a release/acquire pair on m that the race detector sees: it stands for whatever the application uses
+// to order its own calls into the library.
+func appSync(m *sync.Mutex) {
+	m.Lock()
+	m.Unlock() //nolint:staticcheck
+}
